@@ -522,10 +522,13 @@ class Evaluator:
                 r = inline_call(fn, node, self, ev_factory)
                 if r is not None:
                     return r
-        if isinstance(f, ast.Name) and f.id in self.env:
-            # calling a local bound to an inlineable lambda term is not supported: opaque
-            pass
         fname = dotted(f) or "call"
+        if isinstance(f, ast.Name) and f.id in self.env:
+            # a local that is a plain copy of a callable's name (parser_class = AkaiImageParser): the call is a call of that callable
+            tk_ = T(self.env[f.id]).key()
+            if tk_.isidentifier() and not tk_.endswith("~") and tk_ != f.id:
+                fname = tk_
+                f = ast.Name(id=tk_, ctx=ast.Load())
         if isinstance(f, ast.Attribute) and dotted(f) is None:
             fname = f"({self.ev(f.value).key()}).{f.attr}"
         elif isinstance(f, ast.Attribute):
